@@ -31,6 +31,15 @@ type c18Runner struct {
 	w  *worker
 	ms runtime.MemStats
 	n  int
+	// values of other, already used types: calls are also measured interleaved with them
+	// ("once a type has been used" must hold whatever was encoded in between)
+	prev []c18Prev
+}
+
+type c18Prev struct {
+	pv  interface{}
+	buf []byte
+	sig string
 }
 
 const c18Runs = 64
@@ -84,6 +93,49 @@ func (r *c18Runner) run(c c18Case) *Failure {
 	}
 	if encAllocs != 0 {
 		return failf("encode-allocates", "EncodeObject(buf, nil, &v) performs %d heap allocation(s) per call after first use (type %s)", encAllocs, c.S.Sig())
+	}
+	// interleaved with up to three other already-used types
+	if len(r.prev) > 0 {
+		others := r.prev
+		inter := r.measure(func() {
+			frugal.EncodedSize(pv)
+			for i := range others {
+				frugal.EncodedSize(others[i].pv)
+			}
+		})
+		if inter != 0 {
+			inter = r.measure(func() {
+				frugal.EncodedSize(pv)
+				for i := range others {
+					frugal.EncodedSize(others[i].pv)
+				}
+			})
+		}
+		if inter != 0 {
+			return failf("size-allocates-interleaved", "EncodedSize allocates %d object(s) per round when calls on %d already used types alternate (this type: %s)", inter, len(others)+1, c.S.Sig())
+		}
+		inter = r.measure(func() {
+			frugal.EncodeObject(buf, nil, pv)
+			for i := range others {
+				frugal.EncodeObject(others[i].buf, nil, others[i].pv)
+			}
+		})
+		if inter != 0 {
+			inter = r.measure(func() {
+				frugal.EncodeObject(buf, nil, pv)
+				for i := range others {
+					frugal.EncodeObject(others[i].buf, nil, others[i].pv)
+				}
+			})
+		}
+		if inter != 0 {
+			return failf("encode-allocates-interleaved", "EncodeObject allocates %d object(s) per round when calls on %d already used types alternate (this type: %s)", inter, len(others)+1, c.S.Sig())
+		}
+		r.w.label("interleaved-with-other-types")
+	}
+	r.prev = append(r.prev, c18Prev{pv: pv, buf: buf, sig: c.S.Sig()})
+	if len(r.prev) > 3 {
+		r.prev = r.prev[1:]
 	}
 	nonEmpty := false
 	var walk func(ts *core.TypeSpec, v core.Val)
